@@ -159,7 +159,7 @@ def _case(draw):
     dtype = 'f' if chain else draw(st.sampled_from('fffffffi'))
     case = {'shape': shape, 'kinds': kinds, 'dtype': dtype,
             'form': draw(st.sampled_from(['arr', 'np', 'py'])) if not shape else 'arr',
-            'layout': draw(st.sampled_from(['C', 'C', 'F']))}
+            'layout': draw(st.sampled_from(dsutil.LAYOUTS))}
     if chain:
         case['init'] = draw(st.lists(_dsdesc('f'), min_size=1, max_size=3))
         case['ops'] = draw(st.lists(_op(True), min_size=2, max_size=10))
@@ -187,8 +187,8 @@ def _build(case, desc):
     dtype = np.int64 if case['dtype'] == 'i' else np.float64
     value = _tile(desc['vals'], shape, dtype)
     error = _tile(desc['errs'], shape, dtype)
-    if case.get('layout') == 'F' and len(shape) >= 2:       # Fortran memory order
-        value, error = np.asfortranarray(value), np.asfortranarray(error)
+    value = dsutil.relayout(value, case.get('layout', 'C'))       # same numbers, other memory layout
+    error = dsutil.relayout(error, case.get('layout', 'C'))
     if desc['mask'] is not None:
         mask = _tile(desc['mask'], shape, bool)
         value = np.ma.masked_array(value, mask=mask.copy())
